@@ -388,6 +388,8 @@ pub struct Expect {
     pub changed: usize,
     /// names through which a write may legitimately happen (symlinks named on the command line)
     pub written_via: Vec<String>,
+    /// eligible files of a format-all run that cannot be read (finding F14)
+    pub read_failures_in_format_all: usize,
 }
 
 pub struct Parsed {
@@ -595,8 +597,10 @@ pub fn model_step(state: &BTreeMap<String, ModelFile>, step: &Step) -> Expect {
             }
             match model_read(state, rel) {
                 ReadResult::Fail => {
-                    // finding 14: read failures inside format-all are skipped silently
-                    ex.dont_know = Some("F14: unreadable or non-UTF-8 *.typ file inside a format-all tree".into());
+                    // the statement counts an I/O error as a failure that must show in the exit status
+                    // (the tree skips such files silently: finding F14, attributed by its classifier)
+                    errors += 1;
+                    ex.read_failures_in_format_all += 1;
                     continue;
                 }
                 ReadResult::Ok(text) => match lib(&text) {
@@ -830,11 +834,12 @@ pub fn run_scenario(sc: &Scenario, prop: &str, use_strace: bool) -> Option<Outco
             out.violations.push((
                 "exit-status".into(),
                 format!(
-                    "{}: exit status {:?}, model says {} ({} changed input(s)); stderr: {:?}",
+                    "{}: exit status {:?}, model says {} ({} changed input(s), {} unreadable/non-UTF-8 eligible file(s) in the format-all tree); stderr: {:?}",
                     tag,
                     res.code,
                     ex.exit,
                     ex.changed,
+                    ex.read_failures_in_format_all,
                     util::clip(&String::from_utf8_lossy(&res.stderr), 160)
                 ),
             ));
@@ -1417,4 +1422,22 @@ pub fn violated(v: &Violation, new_input: &str) -> Option<bool> {
     let sc = Scenario::from_json(&serde_json::from_str(new_input).ok()?)?;
     let out = run_scenario(&sc, &v.property, v.property != "C16")?;
     Some(!out.violations.is_empty())
+}
+
+/// Counterfactual for finding F14: make every unreadable / non-UTF-8 file readable UTF-8.
+pub fn repair_f14(input: &str) -> Option<String> {
+    let mut sc = Scenario::from_json(&serde_json::from_str(input).ok()?)?;
+    let mut changed = false;
+    for f in sc.files.iter_mut() {
+        if f.kind == Kind::File && (f.mode & 0o400 == 0 || String::from_utf8(f.content.clone()).is_err()) {
+            f.mode = 0o644;
+            f.content = String::from_utf8_lossy(&f.content).replace('\u{FFFD}', "?").into_bytes();
+            changed = true;
+        }
+    }
+    if changed {
+        Some(serde_json::to_string(&sc.to_json()).unwrap())
+    } else {
+        None
+    }
 }
